@@ -40,6 +40,7 @@ type taskInfo struct {
 	fg    bool
 	rpc   int
 	calls int // storage calls made so far by this task
+	per   map[string]int
 }
 
 // crashPanic is the sentinel panic that models the death of the server
@@ -94,12 +95,27 @@ type NetFault struct {
 
 // DBFault says what the storage proxy does to one storage call.
 type DBFault struct {
-	// Call is the 0-based index of the storage call inside the next top-level
-	// request (foreground), or -1 to match by Method for background calls.
+	// Call >= 0: the 0-based index of the storage call inside the next
+	// top-level request. Call < 0: the Nth (0-based) call of Method inside that
+	// request; with BG the next background call of Method.
 	Call   int    `json:"call"`
 	Method string `json:"method,omitempty"`
+	Nth    int    `json:"nth,omitempty"`
 	Mode   string `json:"mode"` // err_before | err_after | crash_before | crash_after
 	BG     bool   `json:"bg,omitempty"`
+}
+
+func (p *DBFault) matches(ti *taskInfo, method string, idx int, nth int) bool {
+	if p.BG {
+		return !ti.fg && p.Method == method
+	}
+	if !ti.fg {
+		return false
+	}
+	if p.Call >= 0 {
+		return p.Call == idx && (p.Method == "" || p.Method == method)
+	}
+	return p.Method == method && p.Nth == nth
 }
 
 type heldRequest struct {
@@ -609,12 +625,17 @@ func (h *dbHooks) Before(ctx context.Context, method string, args []any) (int, e
 	w.mu.Lock()
 	idx := ti.calls
 	ti.calls++
+	if ti.per == nil {
+		ti.per = map[string]int{}
+	}
+	nth := ti.per[method]
+	ti.per[method]++
 	if ti.fg && w.curRPC != nil && ti.rpc == w.curRPC.N {
 		w.curRPC.Calls = append(w.curRPC.Calls, method)
 	}
 	var f *DBFault
 	for i, p := range w.dbPlan {
-		if (p.BG && !ti.fg && p.Method == method) || (!p.BG && ti.fg && p.Call == idx && (p.Method == "" || p.Method == method)) {
+		if p.matches(ti, method, idx, nth) {
 			f = p
 			if p.Mode == "err_before" || p.Mode == "crash_before" {
 				w.dbPlan = append(w.dbPlan[:i], w.dbPlan[i+1:]...)
@@ -700,7 +721,7 @@ func (h *dbHooks) After(ctx context.Context, method string, tok int, args []any,
 	var f *DBFault
 	w.mu.Lock()
 	for i, p := range w.dbPlan {
-		if (p.BG && !ti.fg && p.Method == method) || (!p.BG && ti.fg && p.Call == tok && (p.Method == "" || p.Method == method)) {
+		if p.matches(ti, method, tok, ti.per[method]-1) {
 			if p.Mode == "err_after" || p.Mode == "crash_after" {
 				f = p
 				w.dbPlan = append(w.dbPlan[:i], w.dbPlan[i+1:]...)
